@@ -407,6 +407,11 @@ func buildC18(cfg *mon.Config) []*mon.Sub {
 			}
 		},
 		Exec: c18ExprExec,
+		Sample: func(p string) any {
+			parts := strings.SplitN(p, "\x00", 2)
+			seed, _ := strconv.ParseUint(parts[0], 10, 64)
+			return printings(decNode(parts[1]), seed)[2]
+		},
 	}
 	resolve := &mon.Sub{
 		Name:          "resolution-and-missing-names",
@@ -592,6 +597,13 @@ func buildC18(cfg *mon.Config) []*mon.Sub {
 				}
 			},
 			Exec: func(c *mon.Case) { c18Run(c, c.Payload, kind) },
+			Sample: func(p string) any {
+				var d []string
+				for i := 0; i < len(p); i++ {
+					d = append(d, c18OpName(int(p[i])%c18OpCount))
+				}
+				return strings.Join(d, "; ")
+			},
 		})
 	}
 	return subs
